@@ -154,6 +154,16 @@ CHECKS = {
          "(one OptionParser: parse, completion at revisions 0/1/7/8/9 with and without an application name, html/markdown/"
          "manpage; two rounds must be identical).",
          "4/C04", "Rocq proof (ledger bound invariant, loop termination) + differential with explicit panic/fuel outcomes + run histories under catch_unwind"),
+ "C01": ("proof", "PARTIAL. coq/Model/Conv.v states the declared grammar: `level` (conventional fragment: uniquely named switches/flags/"
+         "required flags/counted/repeated flags/arguments x {required, optional, many, some, fallback, last}, positional suffix "
+         "Req* Opt* (Many|Some)?, subcommand trees with aliases), `compile` (the combinator term) and `denote` (one left-to-right "
+         "attribution scan, then arity and value checks; Unspecified exactly for the property's carve-outs and help requests). "
+         "Theorem proved (coq/Props/C01.v): the `unknown name` half of Reject for whole subcommand trees -- a key no item of the "
+         "tree owns is never swallowed, no value is returned -- as a corollary of C05's exactly-once theorem. The full refinement "
+         "(denote = Accept v -> Ok v; Reject -> stderr) is stated in Props/C01.v and NOT proved in this revision; it is decided "
+         "per run by conformance of the implementation against `denote` (4000 vectors quick: sentences in every spelling/order, "
+         "near-miss and mutated non-sentences, salted vectors) together with the evaluator model on Coq's `compile` of the same level.",
+         "4/C01", "Rocq: declarative grammar Conv.denote + partial proof (unowned keys never accepted) + conformance differential implementation vs denote"),
 }
 
 NA_REASON = "check not built yet in this revision (machinery under construction; see DESIGN.md section 7 staging)"
